@@ -1,5 +1,6 @@
 import Driver.Common
 import FsicModel.Container
+import FsicModel.ContainerAlias
 /-
 Driver for M6 (Container).  Kind `hist`: `{store, ops}` → one reply line, one tab-separated field per item of
 `ops` (operation: `outcome|state dump`; query: read result).  Values cross as tagged pairs
@@ -182,22 +183,34 @@ def readStr : ReadResult → String
   | .array shp data => "a:" ++ shapeStr shp ++ ":" ++ joinWith "," (data.map valStr)
   | .other => "other"
 
-def runItems : Store → List Item → List String → List String
+def runItems (al : Alias.AMap String) : Store → List Item → List String → List String
   | _, [], acc => acc.reverse
   | s, .op o :: rest, acc =>
-    runItems (step Cfg.current s o).1 rest
-      ((outcomeStr (step Cfg.current s o).2 ++ "|" ++ stateStr (step Cfg.current s o).1) :: acc)
-  | s, .getItem n :: rest, acc => runItems s rest (readStr (getItem s n) :: acc)
-  | s, .getAttr n :: rest, acc => runItems s rest (readStr (getAttr s n) :: acc)
-  | s, .getPos n i :: rest, acc => runItems s rest (readStr (getPos s n i) :: acc)
-  | s, .getLabel n l :: rest, acc => runItems s rest (readStr (getLabel s n l) :: acc)
-  | s, .getLabelSlice n a b st :: rest, acc => runItems s rest (readStr (getLabelSlice s n a b st) :: acc)
+    runItems al (aStep Cfg.current al s o).1 rest
+      ((outcomeStr (aStep Cfg.current al s o).2 ++ "|" ++ stateStr (aStep Cfg.current al s o).1) :: acc)
+  | s, .getItem n :: rest, acc => runItems al s rest (readStr (aGetItem al s n) :: acc)
+  | s, .getAttr n :: rest, acc => runItems al s rest (readStr (aGetAttr al s n) :: acc)
+  | s, .getPos n i :: rest, acc => runItems al s rest (readStr (aGetPos al s n i) :: acc)
+  | s, .getLabel n l :: rest, acc => runItems al s rest (readStr (aGetLabel al s n l) :: acc)
+  | s, .getLabelSlice n a b st :: rest, acc => runItems al s rest (readStr (aGetLabelSlice al s n a b st) :: acc)
 
-/-- kind `hist`: `{store, ops}` → tab-separated results, one per item. -/
+def parseAliases (j : Json) : R (List (String × String)) :=
+  match optObj j "aliases" with
+  | none => pure []
+  | some v => do
+    (← v.getArr?).toList.mapM fun p => do
+      let a ← p.getArr?
+      match a[0]?, a[1]? with
+      | some k, some t => do pure ((← k.getStr?), (← t.getStr?))
+      | _, _ => throw "bad alias entry"
+
+/-- kind `hist`: `{store, ops, aliases?}` → tab-separated results, one per item.  `aliases` is the class's raw
+    `ALIASES` (items in order); the model shortens chains itself (`Alias.instanceAliases`). -/
 def handleHist (j : Json) : R String := do
   let s ← parseStore (← obj j "store")
   let items ← (← arr j "ops").toList.mapM parseItem
-  pure (joinWith "\t" (runItems s items []))
+  let raw ← parseAliases j
+  pure (joinWith "\t" (runItems (aliasesOf raw) s items []))
 
 /-- kind `pyslice`: `{n, a, b, step}` → positions (or `!ValueError`). -/
 def handlePySlice (j : Json) : R String := do
